@@ -52,7 +52,7 @@ ASSUMPTIONS = [
 MINIMA = {"quick": {"entry_point_runs": 250, "repo_open_events": 300, "error_path_runs": 60, "cli_runs": 10}, "thorough": {"entry_point_runs": 2500}}
 MECH = "read-only"
 DATA = os.path.join(os.environ.get("VF_REPO", "/repo"), "tests", "data")
-ENTRY = ["vmdk-desc", "vmdk-delta", "vmdk-mono", "vhdx-diff", "vhdx-path", "hdd", "hdd-abs", "hdd-snap", "vmtar", "hyperv", "xmlcfg", "vmx", "cli", "cli-errors", "cli-interrupt", "streams", "filehandles", "hdd-odd-bundles"]
+ENTRY = ["vmdk-desc", "vmdk-delta", "vmdk-mono", "vhdx-diff", "vhdx-path", "hdd", "hdd-abs", "hdd-snap", "vmtar", "hyperv", "xmlcfg", "vmx", "cli", "cli-errors", "cli-interrupt", "streams", "filehandles", "hdd-odd-bundles", "envelope-lib"]
 
 
 def plan(tier: str, seed: int) -> list[dict]:
@@ -61,7 +61,7 @@ def plan(tier: str, seed: int) -> list[dict]:
     for ep in ENTRY:
         for r in range(reps):
             cases.append({"k": ep, "r": r, "fault": None})
-            if ep not in ("cli", "cli-errors", "cli-interrupt", "streams", "xmlcfg", "vmx", "hdd-odd-bundles") and r % 2 == 0:
+            if ep not in ("cli", "cli-errors", "cli-interrupt", "streams", "xmlcfg", "vmx", "hdd-odd-bundles", "envelope-lib") and r % 2 == 0:
                 cases.append({"k": ep, "r": r, "fault": ["truncate", "garbage", "missing", "ioerror"][(r // 2) % 4]})
     cases.append({"k": "repo-tests", "r": 0, "fault": None, "weight": 60})
     cases.append({"k": "static-scan", "r": 0, "fault": None})
@@ -262,6 +262,14 @@ def build_and_run(k: str, rng, ctx, root: Path, fault, res, phase: str = "both")
             tree = {"configuration": {"a": whv.Val("int", 5), "s": whv.Val("string", "x" * 3000, file_object=True), "sub": {"b": whv.Val("bool", 1)}}}
             raw, _ = whv.build(rng, tree, ntables=2, stale_tables=1, replay_entries=rng.choice([0, 2, 5]))
             (root / "vm.vmcx").write_bytes(raw)
+        elif k == "envelope-lib":
+            # an envelope of several MiB, decrypted through the library on handles of the caller's
+            d1, d2 = bytes(rng.randrange(256) for _ in range(16)), bytes(rng.randrange(256) for _ in range(16))
+            key = wenv.derive(d1, d2)
+            payload = hashlib.shake_128(rng.getrandbits(64).to_bytes(8, "little")).digest(rng.choice([100_000, (4 << 20) + 4096, (5 << 20) + 17, 9 << 20]))
+            raw, _ = wenv.build(rng, payload=payload, key=key, iv=bytes(12), padding=rng.randrange(0, 4096))
+            (root / "big.ve").write_bytes(raw)
+            st.update({"key": key.hex(), "payload": hashlib.sha256(payload).hexdigest()})
         elif k == "filehandles":
             # one image of every handle-based disk class, to be opened through real file objects ("rb" and "r+b")
             from vf.writers import hds as whds_
@@ -434,6 +442,24 @@ def build_and_run(k: str, rng, ctx, root: Path, fault, res, phase: str = "both")
 
                     last = call(f)
                 return last
+            if k == "envelope-lib":
+                from dissect.hypervisor.util.envelope import Envelope
+
+                raw = (root / "big.ve").read_bytes()
+                last = None
+                for hkind in ("bytesio", "r+b", "proxy-writable"):
+                    fh = io.BytesIO(raw) if hkind == "bytesio" else (open(root / "big.ve", "r+b") if hkind == "r+b" else as_handle(raw, claims_writable=True))
+                    handles.append(fh)
+                    res["sets"].setdefault("handle_modes", []).append(f"envelope:{hkind}")
+                    last = call(lambda: hashlib.sha256(Envelope(fh).decrypt(bytes.fromhex(st["key"]))).hexdigest())
+                    if last.ok and last.value != st["payload"] and fault is None:
+                        res["viol"].append({"what": "Envelope.decrypt did not return the payload", "mech": "envelope.lib", "detail": {"handle": hkind}})
+                    if hkind == "bytesio" and fh.getvalue() != raw:
+                        res["viol"].append({"what": "a caller-supplied in-memory handle was modified", "mech": MECH,
+                                            "detail": {"entry_point": k, "first_difference_at": next(i for i, (a_, b_) in enumerate(zip(fh.getvalue(), raw)) if a_ != b_)}})
+                    if getattr(fh, "mutations", None):
+                        res["viol"].append({"what": "write/truncate called on a caller-supplied handle", "mech": MECH, "detail": {"entry_point": k, "calls": fh.mutations[:3]}})
+                return last
             if k == "hdd-odd-bundles":
                 from dissect.hypervisor.disk.hdd import HDD
 
@@ -498,9 +524,15 @@ def build_and_run(k: str, rng, ctx, root: Path, fault, res, phase: str = "both")
                 from dissect.hypervisor.tools import envelope as tool
 
                 env = root / st["env"]
+                rel_cwd = None
                 if k == "cli":
                     out = out_dir / "plain.bin"
                     args = [str(env), "-ks", str(root / "encryption.info"), "-o", str(out)]
+                    if rng.random() < 0.4:
+                        # the output named relative to the working directory (which is not the evidence directory)
+                        rel_cwd = out_dir
+                        args[-1] = rng.choice(["plain.bin", "./plain.bin"])
+                        res["sets"].setdefault("cli_variants", []).append("relative-output")
                 else:
                     variant = rng.choice(["outdir-evidence", "outdir-sub", "wrongkey", "missing-ks", "missing-env", "out-in-evidence", "tampered", "tampered", "no-output", "no-output"])
                     if variant == "tampered":
@@ -520,9 +552,12 @@ def build_and_run(k: str, rng, ctx, root: Path, fault, res, phase: str = "both")
                         args = args[:-2]
                     res["sets"].setdefault("cli_variants", []).append(variant)
                     st["cli_out"] = str(out)
-                ctx.audit.allow_write_paths = {str(out)}
+                ctx.audit.allow_write_paths = {str(out)} | ({"plain.bin", "./plain.bin"} if rel_cwd is not None else set())
                 argv = sys.argv
                 sys.argv = ["envelope-decrypt"] + args
+                cwd0 = os.getcwd()
+                if rel_cwd is not None:
+                    os.chdir(rel_cwd)
                 try:
                     try:
                         o = call(tool.main)
@@ -530,9 +565,10 @@ def build_and_run(k: str, rng, ctx, root: Path, fault, res, phase: str = "both")
                         o = call(lambda: (_ for _ in ()).throw(RuntimeError(f"SystemExit {e.code}")))
                 finally:
                     sys.argv = argv
+                    os.chdir(cwd0)
                 cnt["cli_runs"] = cnt.get("cli_runs", 0) + 1
                 if k == "cli":
-                    if not o.ok or hashlib.sha256(out.read_bytes()).hexdigest() != st["payload"]:
+                    if not o.ok or not out.is_file() or hashlib.sha256(out.read_bytes()).hexdigest() != st["payload"]:
                         res["viol"].append({"what": "envelope-decrypt did not write exactly the payload to --output", "mech": "envelope.cli", "detail": {"outcome": o.brief()}})
                 st["allowed"] = str(out)
                 return o
